@@ -79,7 +79,7 @@ impl Base {
 
 // ---------------------------------------------------------------- mutation operators
 
-const VALUES: [u64; 12] = [0, 1, 0x0800_0000, 0x1000_0000, 0x1FFF_FFFF, 0xFFFF_FFFE, 0xFFFF_FFFF, 0x1_0000_0000, 0x8000_0000, 0x7FFF_FFFF_FFFF_FFFF, 0x8000_0000_0000_0000, u64::MAX];
+const VALUES: [u64; 16] = [0, 1, 0x1_0001, 0x10_0000, 0x100_0000, 0x400_0000, 0x0800_0000, 0x1000_0000, 0x1FFF_FFFF, 0xFFFF_FFFE, 0xFFFF_FFFF, 0x1_0000_0000, 0x8000_0000, 0x7FFF_FFFF_FFFF_FFFF, 0x8000_0000_0000_0000, u64::MAX];
 
 #[derive(Clone, Debug, PartialEq, Eq, Hash)]
 pub enum M {
@@ -609,7 +609,9 @@ pub fn run_input(bytes: &[u8], names: &[String], follow_depth: usize, calls: &mu
     // ceiling: the brotli format lets a stream declare a window of up to 16 MiB (the decoder then holds a few
     // buffers of that order: ~67 MB was measured on garbage input) - a constant, not proportional to anything
     // the attacker sends; what must be caught are sizes taken from the input (512 MiB pre-allocations, GiB buffers)
-    let cap = (96usize << 20) + 64 * bytes.len();
+    // (an input whose header does not announce the compression layer has no such excuse: 8 MiB)
+    let compressed = bytes.get(7).map(|b| b & 2 != 0).unwrap_or(true);
+    let cap = (if compressed { 96usize << 20 } else { 8usize << 20 }) + 64 * bytes.len();
     // peak of live heap above the level at the last reset
     let base_cell = std::cell::Cell::new(0usize);
     let reset = || {
@@ -941,7 +943,7 @@ pub fn run(started: Instant) -> i32 {
         rep,
         Meta {
             level: "fault_enumeration",
-            rule: "20 base archives (5 programs x 4 layer combos, real writer); mutation sets: k=1 exhaustive on archive bytes (every truncation; every byte x {8 bit flips, 00, FF, +1, -1}); k=1 structured on the decoded streams, re-encoded with valid compression and valid tags (every integer field of block headers, file index, sizes table and both length words set to 12 boundary values (including 128 MiB, 256 MiB and 512 MiB - 1, just under the deserialisation limit) and to len-1/len/len+1; every block delete/duplicate-at/swap; offsets list = N copies of a foreign offset, N in {10,1000,300000}; trailing garbage; footer splice between layers; first compressed block starting with a large-window brotli header declaring a window of 2^{10,24,25,28,30} bytes); 300 (thorough 1500) seeded random byte strings per base (pure, after a valid magic, after a valid header - supplementary); k=2 all pairs over the hostile structured operators (3 bases quick / 11 thorough); k=3 triples (thorough). On each input: open, list, read every file with 7-byte reads, get_hash, linear_extract, repair in both modes, and - when a call returned an error - every sequence of up to 2 (thorough 3) further calls on the same reader, then drop. Each input runs in a worker process (crash attribution), under catch_unwind, a 60 s watchdog and a counting allocator (ceiling 96 MiB + 64 x input). non-trivial = distinct mutated inputs".to_string(),
+            rule: "20 base archives (5 programs x 4 layer combos, real writer); mutation sets: k=1 exhaustive on archive bytes (every truncation; every byte x {8 bit flips, 00, FF, +1, -1}); k=1 structured on the decoded streams, re-encoded with valid compression and valid tags (every integer field of block headers, file index, sizes table and both length words set to 16 boundary values (64 KiB + 1, 1 MiB, 16 MiB, 64 MiB, 128 MiB, 256 MiB, 512 MiB - 1 just under the deserialisation limit, and the 32/64-bit edges) and to len-1/len/len+1; every block delete/duplicate-at/swap; offsets list = N copies of a foreign offset, N in {10,1000,300000}; trailing garbage; footer splice between layers; first compressed block starting with a large-window brotli header declaring a window of 2^{10,24,25,28,30} bytes); 300 (thorough 1500) seeded random byte strings per base (pure, after a valid magic, after a valid header - supplementary); k=2 all pairs over the hostile structured operators (3 bases quick / 11 thorough); k=3 triples (thorough). On each input: open, list, read every file with 7-byte reads, get_hash, linear_extract, repair in both modes, and - when a call returned an error - every sequence of up to 2 (thorough 3) further calls on the same reader, then drop. Each input runs in a worker process (crash attribution), under catch_unwind, a 60 s watchdog and a counting allocator (ceiling 96 MiB + 64 x input when the header announces compression, 8 MiB + 64 x input otherwise). non-trivial = distinct mutated inputs".to_string(),
             exhaustive: true,
             bounds: json!({"bases": bases.len(), "cases": total}),
             assumptions: vec!["scaled constants; overflow checks on (profile of the suite)".to_string(), "inner streams are re-encrypted with the archive's own key by an independent AES-GCM implementation (equivalent to an attacker producing an archive for the victim's public key)".to_string()],
